@@ -138,17 +138,19 @@ class Case:
     """models + optional update + signal (pixels with the index of their label; the request line carries label VALUES and the
     element type, the response the element type of the result and its values)"""
 
-    def __init__(self, mode, models, upd, pix, label_values, shape, dtype="f64"):
+    def __init__(self, mode, models, upd, pix, label_values, shape, dtype="f64", channels=1):
         self.mode, self.models, self.upd, self.pix, self.label_values, self.shape = mode, models, upd, pix, label_values, shape
         self.dtype = dtype
+        self.channels = channels  # > 1: signal of shape (H, W, C) with a 2-D label map; pix lists the C values of a pixel consecutively
 
     def line(self):
         return (f"run {self.mode} {self.dtype} {len(self.models)} " + " ".join(tok_model(m) for m in self.models) + " | " + tok_upd(self.upd)
                 + f" | {len(self.pix)} " + " ".join(f"{self.label_values[l] if l < len(self.label_values) else l} {fmt(v)}" for l, v in self.pix))
 
     def arrays(self):
-        lab = np.array([self.label_values[l] for l, _ in self.pix], dtype=np.int64).reshape(self.shape)
-        sig = np.array([float(v) for _, v in self.pix], dtype=float).reshape(self.shape).astype(NP_OF[self.dtype])
+        lab = np.array([self.label_values[l] for l, _ in self.pix[:: self.channels]], dtype=np.int64).reshape(self.shape)
+        full = tuple(self.shape) + ((self.channels,) if self.channels > 1 else ())
+        sig = np.array([float(v) for _, v in self.pix], dtype=float).reshape(full).astype(NP_OF[self.dtype])
         return lab, sig
 
     def run_impl(self, d):
@@ -265,7 +267,11 @@ def gen_case(rng, malformed=False):
         if malformed and rng.random() < 0.5:
             need, extra = max(0, need - 1), 0
         upd = ("sub", entries, [dz(rng) for _ in range(need + extra)])
-    return Case(mode, models, upd, pix, label_values, shape, dtype)
+    channels = 1
+    if any(m[0] == "het" for m in models) and rng.random() < 0.3:
+        channels = rng.choice([2, 3])  # (H, W, C) signal, 2-D labels: the mask of a label selects all channels of its pixels
+        pix = [(l, gen_value(rng, dtype)) for l, _ in pix for _ in range(channels)]
+    return Case(mode, models, upd, pix, label_values, shape, dtype, channels)
 
 
 # ---------------------------------------------------------------------------
@@ -1079,7 +1085,8 @@ def oracle_kernel_parameters(ctx, d):
         r = call(ki.update_model_parameters, p_) if dofs is None else call(ki.update_model_parameters, p_, dofs)
         out = r if isinstance(r, Raised) else call(ki, S.astype(np.float32))
         if isinstance(out, Raised):
-            ctx.fail("C14:KernelInterpolation.update_model_parameters(kernel dof):unusable",
+            stage = "update" if isinstance(r, Raised) else "call-after-update"
+            ctx.fail(f"C14:KernelInterpolation.update_model_parameters(dofs={dofs!r}):{stage}:{type(out.exc).__name__}",
                      f"update_model_parameters(p, dofs={dofs!r}) raises or leaves an object that cannot be evaluated: {out!r}",
                      {"dofs": dofs, "observed": repr(out), "exception": str(getattr(out, 'exc', ''))[:120]})
 
@@ -1284,6 +1291,29 @@ def linear_kernel_correspondence(ctx, d):
     ctx.correspond("linear-kernel-plain-loop", lines, impl_plain)
 
 
+def observe_image_inputs(ctx, d):
+    """darsia.Image inputs: only ClipModel documents them. What every class does with an Image is recorded (not counted as passing)."""
+    img = d.Image(np.arange(6.0).reshape(2, 3), dimensions=[1.0, 1.0], scalar=True)
+    lab = np.array([[1, 1, 2], [2, 3, 3]])
+    arr = np.arange(6.0).reshape(2, 3)
+    objs = {"ClipModel": (d.ClipModel(**{"min value": 1.0, "max value": 3.0}), np.clip(arr, 1, 3)),
+            "ScalingModel": (d.ScalingModel(scaling=2.0), 2 * arr), "LinearModel": (d.LinearModel(scaling=2.0, offset=1.0), 2 * arr + 1),
+            "HeterogeneousLinearModel": (d.HeterogeneousLinearModel(lab, scaling=[1.0, 2.0, 3.0], offset=[0.0, 0.0, 0.0]), None),
+            "CombinedModel": (d.CombinedModel([d.ClipModel(**{"min value": 1.0, "max value": 3.0}), d.LinearModel(scaling=2.0, offset=1.0)]), 2 * np.clip(arr, 1, 3) + 1),
+            "StaticThresholdModel": (d.StaticThresholdModel(1.0, 3.0), (arr > 1) & (arr < 3))}
+    rep = {}
+    for name, (m, want) in objs.items():
+        out = call(m, img.copy())
+        if isinstance(out, Raised):
+            rep[name] = f"raises {out!r} (signature takes np.ndarray)"
+        elif hasattr(out, "img") and want is not None and np.array_equal(np.asarray(out.img), want):
+            rep[name] = "Image in -> Image out, values as for the array"
+        else:
+            rep[name] = "returns " + type(out).__name__ + (" with OTHER values than for the array" if want is not None else "")
+    ctx.cov["image_inputs_observed"] = rep
+    ctx.notes.append("Image inputs are in the API of ClipModel only (checked by the oracle); for the other classes the behaviour is recorded under image_inputs_observed, not asserted")
+
+
 def oracle_kernel(ctx, d):
     rng = np.random.default_rng(ctx.rng.randrange(2**31))
     worst_rep, worst_numba = 0.0, 0.0
@@ -1474,6 +1504,7 @@ def run(ctx):
     oracle_models(ctx, d)
     oracle_threshold(ctx, d, thr)
     oracle_zero_updates(ctx, d)
+    observe_image_inputs(ctx, d)
     oracle_label_sequences(ctx, d)
     oracle_kernel(ctx, d)
     oracle_kernel_sequences(ctx, d)
@@ -1486,6 +1517,10 @@ def run(ctx):
         "np.clip / numpy broadcasting / boolean mask assignment semantics (tied by the exact correspondence on dyadic inputs)",
         "np.isclose default tolerances 1e-8 + 1e-5 (ScalingModel shortcut); inputs stay away from the threshold",
         "kernel interpolation: exp, np.linalg.inv, float32 casts and numba kernels are observed with tolerances, not modelled",
+        "states after an exception are outside the theorems (hypothesis: the sequence does not raise): e.g. KernelInterpolation.update(values=<wrong length>) "
+        "overwrites self.values before the matrix product raises, leaving values and interpolation_weights inconsistent (a C16-style question, not checked here)",
+        "label-wise thresholding and the HeterogeneousModel wrapper accept 2-D signals only (a (H,W,C) signal raises a broadcasting error); "
+        "HeterogeneousLinearModel takes (H,W) and (H,W,C) signals with 2-D labels (both in the tie)",
     ]
     import shutil
 
